@@ -228,8 +228,8 @@ pub fn run(t: &[String]) -> String {
 
 fn json_line(b: Vec<u8>) -> String {
     use snel_db::frontend::http::json_command::JsonCommand;
-    let s = match String::from_utf8(b) { Ok(s) => s, Err(_) => return "BADUTF8".into() };
-    match serde_json::from_str::<JsonCommand>(&s) {
+    // exactly what handle_json_command does with the request body (src/frontend/http/dispatcher.rs)
+    match sonic_rs::from_slice::<JsonCommand>(&b) {
         Ok(j) => { let c: Command = j.into(); format!("OK {}", canon(&c)) }
         Err(_) => "ERR".into(),
     }
